@@ -154,6 +154,7 @@ class Gen:
                  max_depth=3, n_records=4, n_enums=3, n_aliases=3, n_protocols=3, steps=(2, 5), rich_array_elems=True):
         self.rng = rng
         self.rich_array_elems = rich_array_elems
+        self.explicit_tags = True
         self.pkg = Package(namespace)
         self.max_depth = max_depth
         self.allow_generics = allow_generics
@@ -410,6 +411,16 @@ class Gen:
             if len(cases) < 2:
                 return self.g_prim()
             has_null = rng.random() < 0.4
+            if self.explicit_tags and rng.random() < 0.3:
+                # the `!union {tag: type}` syntax with tags of its own; only as a named definition (it cannot be embedded in
+                # the short syntax of an enclosing type)
+                xt = ["t%s%d" % ("abcdefgh"[i], rng.randint(0, 9)) for i in range(len(cases))]
+                name = self.pkg.fresh("X")
+                body = ", ".join((["nothing: null"] if has_null else []) + ["%s: %s" % (tg, yq(c.spell)) for tg, c in zip(xt, cases)])
+                self.pkg.defs.append((name, "%s: !union {%s}" % (name, body)))
+                u = T("union", name, has_null=has_null, cases=cases, tags=xt, xtags=xt)
+                self.pkg.structs[name] = ("alias", T("union", "!union {%s}" % body, has_null=has_null, cases=cases, tags=xt, xtags=xt))
+                return u
             spell = "[" + ", ".join((["null"] if has_null else []) + [yq(c.spell) for c in cases]) + "]"
             return T("union", spell, has_null=has_null, cases=cases, tags=[union_tag(c) for c in cases])
         if k == "vec":
@@ -777,6 +788,9 @@ def expanded(t, rng=None, swap_aliases=False):
         return prim_name(t.p, t.spell)
     if k == "opt":
         return "[null, %s]" % expanded(t.e, rng, swap_aliases)
+    if k == "union" and getattr(t, "xtags", None):
+        return "!union {%s}" % ", ".join((["nothing: null"] if t.has_null else []) +
+                                         ["%s: %s" % (tg, expanded(c, rng, swap_aliases)) for tg, c in zip(t.xtags, t.cases)])
     if k == "union":
         return "[" + ", ".join((["null"] if t.has_null else []) + [expanded(c, rng, swap_aliases) for c in t.cases]) + "]"
     if k == "vec":
